@@ -6,6 +6,7 @@ import Verif.Spec.Tokens
 import Verif.Proofs.Lexer
 import Verif.Proofs.LexerTotal
 import Verif.Proofs.LexerCover
+import Verif.Proofs.LexerPos
 /-!
 # C37 — Lexing, parsing and checking are total and report in-range positions
 
@@ -48,6 +49,42 @@ theorem linecol_witness_empty_token :
     (∃ t ∈ (lex inp).tokens, t.ty = T.string ∧ t.startOff = 5 ∧ t.endOff = 4) ∧
     (∃ t ∈ (lex inp).tokens, t.ty = T.stringTemplate ∧ t.startOff = 5 ∧ t.startPos = ⟨1, 6⟩) ∧ lineCol inp 5 = (1, 5) := by
   decide
+
+/-- `linecol_exact_partial`: for every byte string, in emission order: every consuming token that is **good**
+    (not empty, last byte ASCII — i.e. its last rune is one byte wide) and all of whose predecessors are good
+    reports exact positions: `startPos = lineCol input startOffset` and `endPos = lineCol input endOffset`
+    (`Spec.LineCol`: computed from scratch by decoding the input from offset 0), hence independent of anything
+    lexed before.  Stated on the newest-first token list (`ExactRev`); the corollary below is the "all tokens
+    good" form.
+    Proof (`Verif.Proofs.LexerWalk`, `Lexer.emit_tok_exact`): the rune-boundary invariant — `startOffset`,
+    `endOffset`, `prevEndOffset` always lie on the chain of rune boundaries of `utf8.DecodeRune` (`Walk`),
+    through `next` / `backupOne` / the string-template rewind / the block-comment content split — so the loop of
+    `endPos()` follows that chain; an ASCII last byte is a rune of its own, so the loop stops exactly at it.
+    `_partial`: what the two recorded findings break is excluded by `good` (a token ending in a multi-byte
+    rune, `linecol_witness_multibyte`; an empty string token, `linecol_witness_empty_token`), and the
+    hypothesis covers *all* predecessors, not only those on the same line (the column error introduced by a
+    bad token ends at the next newline; that reset is not proved).  Error tokens are not claimed. -/
+theorem linecol_exact_partial (limit : Nat) (inp : Bytes) : ExactRev inp (lexWith limit inp).final.toks :=
+  Verif.Proofs.LexerPos.lexWith_exact limit inp
+
+/-- all tokens good ⟹ all consuming tokens exact -/
+theorem linecol_exact_all_good_partial (limit : Nat) (inp : Bytes) (h : AllGood inp (lexWith limit inp).final.toks) :
+    ∀ t ∈ (lexWith limit inp).tokens, isError t = false → Exact inp t := by
+  intro t ht
+  exact Verif.Proofs.LexerPos.exactRev_all inp _ (linecol_exact_partial limit inp) h t
+    (by simpa [Result.tokens] using ht)
+
+/-- non-vacuity: `x =⏎/*é */ y` — two lines, a 2-byte rune inside a token that ends in ASCII: all tokens are
+    good, and (by the theorem) exact; the columns after `é` count runes, not bytes -/
+example : AllGood #[120, 32, 61, 10, 47, 42, 0xC3, 0xA9, 32, 42, 47, 32, 121]
+    (lex #[120, 32, 61, 10, 47, 42, 0xC3, 0xA9, 32, 42, 47, 32, 121]).final.toks := by decide
+example : ((lex #[120, 32, 61, 10, 47, 42, 0xC3, 0xA9, 32, 42, 47, 32, 121]).tokens.map
+    (fun t => (t.ty, t.startOff, t.startPos.line, t.startPos.column))) =
+    [(9, 0, 1, 0), (2, 1, 1, 1), (38, 2, 1, 2), (2, 3, 1, 3), (42, 4, 2, 0), (44, 6, 2, 2), (43, 9, 2, 4), (2, 11, 2, 6),
+     (9, 12, 2, 7)] := by decide
+/-- the hypothesis fails exactly at the recorded finding: the string token ending in `本` is not good -/
+example : ¬ AllGood #[34, 0xE6, 0x97, 0xA5, 0xE6, 0x9C, 0xAC, 92, 40, 120, 41, 34]
+    (lex #[34, 0xE6, 0x97, 0xA5, 0xE6, 0x9C, 0xAC, 92, 40, 120, 41, 34]).final.toks := by decide
 
 /-- an unterminated block comment ends the token stream without a token for its content: the tokens do not
     reach the end of the input although no error token was emitted -/
@@ -124,7 +161,7 @@ theorem lex_loops_total_partial (l : L) (h : Verif.Proofs.Lexer.InBounds l) :
 
 /-- non-vacuity: the initial state of every input is in bounds -/
 example (inp : Bytes) (limit : Nat) : Verif.Proofs.Lexer.InBounds (L.init inp limit) :=
-  ⟨rfl, Nat.le_refl _, Nat.zero_le _, Nat.le_refl _, Or.inl rfl⟩
+  (Verif.Proofs.LexerTotal.inv_init inp limit).1
 
 /-! ## FX: the pooled lexer object starts in the model's initial state -/
 
